@@ -1,23 +1,30 @@
 #!/bin/bash
 # Applies each behaviour-preserving edit of seeded/benign/ to a scratch worktree of /repo (HEAD) and runs every
-# registered quick check against that worktree (HV_REPO/HV_OUT: /repo and evidence/ are not touched).
-# A VIOLATION here is a false alarm. Writes seeded/benign/RESULTS.txt.
+# registered quick check against that worktree (HV_REPO/HV_OUT: /repo and evidence/ are not touched), three
+# checks at a time. A VIOLATION here is a false alarm. Writes seeded/benign/RESULTS.txt
+# (with an argument: only the edits whose name starts with it; RESULTS.txt is then updated in place).
 cd /verif
 export GOFLAGS=-mod=mod GOPROXY=off GOSUMDB=off GOTOOLCHAIN=local
 wt=$(mktemp -d /tmp/benignwt.XXXX); rmdir $wt
 git -C /repo worktree add --detach $wt HEAD >/dev/null 2>&1 || exit 2
-trap 'git -C /repo worktree remove --force '$wt' >/dev/null 2>&1; rm -rf /tmp/benignout' EXIT
+od=$(mktemp -d /tmp/benignout.XXXX)
+trap 'git -C /repo worktree remove --force '$wt' >/dev/null 2>&1; rm -rf '$od EXIT
 out=seeded/benign/RESULTS.txt; [ -n "${1:-}" ] || : > $out
 ids=$(python3 -c "import json;print(' '.join(c['property_id'] for c in json.load(open('MANIFEST.json'))['checks']))")
 for p in seeded/benign/[bc]*.diff; do
   n=$(basename $p .diff)
   if [ -n "${1:-}" ] && [[ "$n" != $1* ]]; then continue; fi
-  git -C $wt checkout -q -- . ; git -C $wt apply /verif/$p || { echo "$n: patch does not apply" | tee -a $out; continue; }
-  alarms=""
-  for id in ${2:-$ids}; do
-    res=$(HV_REPO=$wt HV_OUT=/tmp/benignout ./check $id quick 2>&1)
-    v=$(echo "$res" | grep "^  obligation" | sed 's/^  obligation //' | cut -d' ' -f1-2 | tr '\n' ';')
-    [ -n "$v" ] && alarms="$alarms $id{$v}"
-  done
-  if [ -z "$alarms" ]; then echo "$n: quiet (all checks pass)" | tee -a $out; else echo "$n: FALSE ALARM $alarms" | cut -c1-900 | tee -a $out; fi
+  git -C $wt checkout -q -- . ; git -C $wt clean -fdq
+  if ! git -C $wt apply /verif/$p; then line="$n: patch does not apply"; else
+    rm -f $od/*.res
+    echo ${2:-$ids} | tr ' ' '\n' | HV_REPO=$wt HV_OUT=$od xargs -P 3 -I{} sh -c './check {} quick > '$od'/{}.res 2>&1'
+    alarms=""
+    for id in ${2:-$ids}; do
+      v=$(grep "^  obligation" $od/$id.res | sed 's/^  obligation //' | cut -d' ' -f1-2 | tr '\n' ';')
+      [ -n "$v" ] && alarms="$alarms $id{$v}"
+    done
+    if [ -z "$alarms" ]; then line="$n: quiet (all checks pass)"; else line=$(echo "$n: FALSE ALARM $alarms" | cut -c1-900); fi
+  fi
+  echo "$line"
+  if [ -n "${1:-}" ]; then grep -v "^$n:" $out > $out.tmp; echo "$line" >> $out.tmp; sort $out.tmp > $out; rm $out.tmp; else echo "$line" >> $out; fi
 done
